@@ -47,14 +47,15 @@ def _comp_text(field: str, leaf_name) -> str:
 
 
 def _deref():
-    # b and c are present together or absent together (objdump always prints index and scale together)
-    for b_c in (False, True):
+    # index and scale present together (k(a,b,c)), both absent, or index without scale (16-bit addressing (%bx,%si))
+    for b_c in (False, True, "b-only"):
         for k in (False, True):
             for leaf in (False, True, "r1", "r2", "r3", "r4", "r5"):
                 for order in ("canonical", "reversed"):
-                    present = ["main_reg"] + (["register_multiplier", "constant_multiplier"] if b_c else []) + \
+                    present = ["main_reg"] + (["register_multiplier"] if b_c == "b-only" else
+                                              (["register_multiplier", "constant_multiplier"] if b_c else [])) + \
                               (["constant_offset"] if k else [])
-                    sid = f"deref:bc={int(b_c)}:k={int(k)}:{leaf if isinstance(leaf, str) else ('names' if leaf else 'children')}:{order}"
+                    sid = f"deref:bc={b_c if isinstance(b_c, str) else int(b_c)}:k={int(k)}:{leaf if isinstance(leaf, str) else ('names' if leaf else 'children')}:{order}"
 
                     def run(present=present, leaf=leaf, order=order, sid=sid, b_c=b_c, k=k):
                         ensure()
@@ -69,7 +70,9 @@ def _deref():
                         def spec():
                             t = {f: _comp_text(f, leaf) for f in present}
                             s = r"\[%?" + t["main_reg"]
-                            if b_c:
+                            if b_c == "b-only":
+                                s += r"\+%?" + t["register_multiplier"]
+                            elif b_c:
                                 s += r"\+%?" + t["register_multiplier"] + r"\*(?:0x)?" + t["constant_multiplier"]
                             if k:
                                 s += r"\+(?:0x)?" + t["constant_offset"]
@@ -104,4 +107,28 @@ def no_main():
             obs.append(simple_ob(f"PatternNodeDeref.get_regex:no-main:{'+'.join(present) or 'none'}:p{i}:EXC", DF, "EXC",
                                  f"$deref with fields {present} (no main_reg) raises ValueError", ok, ["C17", "C06"],
                                  detail=repr(p.value), witness=repr(p.value)[:60]))
+    return obs
+
+
+@scenario("deref:scale-without-index", DF, ["C05", "C06"], doc="a $deref with a scale but no index has no objdump counterpart: only CLOSED / CAPS are checked")
+def scale_only():
+    ensure()
+    from vf import rx
+    obs: List[Ob] = []
+    for present in (["main_reg", "constant_multiplier"], ["main_reg", "constant_multiplier", "constant_offset"]):
+        levels: Dict[str, str] = {}
+
+        def fn(present=present):
+            kids = [_prop_node(f, levels, False) for f in present]
+            return J.deref.PatternNodeDeref(node_data("$deref", J.gd.TimesType(1, 1), kids)).get_regex()
+        run = sym_run(fn)
+        for i, p in enumerate(run.paths):
+            base = f"PatternNodeDeref.get_regex:scale-only:{'+'.join(SHORT[f] for f in present)}:p{i}"
+            try:
+                pr = rx.parse(p.value, run.ctx.table) if p.kind == "ret" else None
+            except Exception:
+                pr = None
+            obs.append(simple_ob(base + ":CAPS", DF, "CAPS", "the result parses and contains no capturing group (group numbers = capture registration order)",
+                                 pr is not None and pr.ncaps == 0 and not pr.issues, ["C05", "C06"],
+                                 detail=repr(p.value) if pr is None else f"{pr.ncaps} capturing groups {pr.issues}", witness=f"{getattr(pr, 'ncaps', None)}"))
     return obs
